@@ -322,29 +322,17 @@ pub fn file_name(reader: &MemReader, id: Uuid) -> String {
     }
 }
 
-pub fn parse_error_variant(e: &ParseError) -> &'static str {
-    match e {
-        ParseError::Expected(..) => "Expected",
-        ParseError::Unsupported(_) => "Unsupported",
-        ParseError::UnexpectedToken(_) => "UnexpectedToken",
-        ParseError::UnexpectedError(_) => "UnexpectedError",
-        ParseError::UnknownDirective(_) => "UnknownDirective",
-        ParseError::CyclicDependency(_) => "CyclicDependency",
-        ParseError::FileNotFound(_) => "FileNotFound",
-        ParseError::IOError(..) => "IOError",
-        ParseError::InvalidString(..) => "InvalidString",
-    }
+/// Variant name (taken from the Debug rendering, so that new variants need no harness change).
+fn variant_name(dbg: String) -> String {
+    dbg.split(|c: char| !(c.is_alphanumeric() || c == '_')).next().unwrap_or("").to_string()
 }
 
-pub fn cfg_error_variant(e: &CfgError) -> &'static str {
-    match e {
-        CfgError::LabelsNotDefined(_) => "LabelsNotDefined",
-        CfgError::DuplicateLabel(_) => "DuplicateLabel",
-        CfgError::MultipleLabelsForReturn(..) => "MultipleLabelsForReturn",
-        CfgError::NoLabelForReturn(_) => "NoLabelForReturn",
-        CfgError::UnexpectedError => "UnexpectedError",
-        CfgError::AssertionError => "AssertionError",
-    }
+pub fn parse_error_variant(e: &ParseError) -> String {
+    variant_name(format!("{e:?}"))
+}
+
+pub fn cfg_error_variant(e: &CfgError) -> String {
+    variant_name(format!("{e:?}"))
 }
 
 fn diag_from_msg<T: DiagnosticMessage + DiagnosticLocation>(
